@@ -138,3 +138,42 @@ Definition agg_scalar (a:agg) (l:list Z) : Z :=
   | AFirst => nthd 0 l 0
   | ALast => nthd 0 l (len l - 1)
   end.
+
+(* reference for Session.aggregate_*(index, target): the rows of the index column, one key cell per row *)
+Definition index_rows (c:column) : list (list cell) :=
+  match c with
+  | ColNum l => scalar_rows l
+  | ColFixed l => map (fun x => [x]) l
+  | ColIndexed i v => map (fun x => [x]) (indexed_rows i v)
+  end.
+(* the maximal runs of equal adjacent rows *)
+Definition runs_spans (rows:list (list cell)) : list Z :=
+  spans_ref (fun a b => negb (row_eqb a b)) rows.
+Definition agg_Z (a:agg) (l:list Z) : Z := uncell (agg_cells a (scalar_cells l)).
+(* a = None: aggregate_count.  One entry per run of equal adjacent index rows; when the index is sorted the runs
+   are the groups and the result is the group-wise reference.  None = target of the wrong length *)
+Definition session_aggregate_ref (a:option agg) (index:column) (target:list Z) : option (list Z) :=
+  let rows := index_rows index in
+  let sorted := rows_sortedb bytes_ltb rows in
+  match a with
+  | None =>
+    Some (if sorted then agg_ref (@len (list cell)) rows rows else count_ref (runs_spans rows))
+  | Some a =>
+    if negb (len target =? len rows) then None
+    else Some (if sorted then agg_ref (agg_Z a) rows target
+               else reduce_spans (fun (_:Z) l => agg_Z a l) (runs_spans rows) target)
+  end.
+(* the index column is well-formed storage (an indexed string field: offsets 0 .. len values, non-decreasing) *)
+Definition column_okb (c:column) : bool :=
+  match c with ColIndexed i v => valid_indexedb i v | _ => true end.
+
+(* reference for Session.distinct(fields=[f0; f1; ...]): component j of every distinct row, ascending *)
+Definition session_distinct_ref (fields:list (list cell)) : option (list (list cell)) :=
+  match fields with
+  | f0 :: _ =>
+    if forallb (fun c => len c =? len f0) fields
+    then let g := groups (rows_of (len f0) fields) in
+         Some (map (fun j => map (fun r => nthd [] r j) g) (iota 0 (length fields)))
+    else None
+  | [] => None
+  end.
